@@ -443,9 +443,9 @@ var c11Names = []c11NameSet{
 
 // C11 part (i): the if-feature evaluator. Parts (ii)/(iii) are in c11_guard.go / c11_deviate.go.
 func C11(ctx *core.Ctx) error {
-	ctx.Imports = "Feature.IfFeature Feature.Guard Feature.Deviate Check.C11Check"
+	ctx.Imports = "Feature.IfFeature Feature.Guard Feature.GuardTree Feature.Deviate Check.C11Check"
 	ctx.ShardMax = 100000
-	ctx.Rule = "evaluator: every token sequence of length 0..L over {a,b,c,not,and,or,(,)} (L=5 quick, 6 thorough) and every grammatical sequence up to G tokens (G=7 quick, 9 thorough), each under all 8 assignments of a,b,c, through meta.IfFeature.Evaluate; random written expressions (depth<=6, random separators blank/tab/line break, redundant parentheses, either nesting) under all assignments of their 3-4 features; malformed texts (token deletion/insertion/duplication, byte soup, keywords touching parentheses). distinct = by SHA-256 of the case term; non-trivial = table with >1 sequence, or a single text"
+	ctx.Rule = "evaluator: every token sequence of length 0..L over {a,b,c,not,and,or,(,)} (L=5 quick, 6 thorough) and every grammatical sequence up to G tokens (G=7 quick, 9 thorough), each under all 8 assignments of a,b,c, through meta.IfFeature.Evaluate; random written expressions (depth<=6, random separators blank/tab/line break, redundant parentheses, either nesting) under all assignments of their 3-4 features; malformed texts (token deletion/insertion/duplication, byte soup, keywords touching parentheses). guard presence: generated modules with one guarded statement of every kind, and whole modules with guarded statements at every depth (containers, lists, choices, cases, groupings and uses with refines and augments, module-level augments, rpc/action input and output, notifications), under all-on / allow-list / deny-list configurations; deviations: every deviate kind x property x node kind. distinct = by SHA-256 of the case term; non-trivial = table with >1 sequence, or a single text / module"
 	r := gen.New(ctx.Seed)
 	idx := 0
 	// exhaustive: all sequences
@@ -589,5 +589,7 @@ func C11(ctx *core.Ctx) error {
 	c11GuardCases(ctx, r.Fork(13))
 	// part (iii): deviations
 	c11DeviateCases(ctx, r.Fork(14))
+	// part (ii) again: guarded statements at every depth of a module
+	c11GuardTreeCases(ctx, r.Fork(15))
 	return nil
 }
